@@ -157,8 +157,8 @@ def _is_time_of_var(c, f, var):
     return c[0] == 'field' and c[2] == 'time' and (c[1][0] in ('local', 'phi') or (c[1][0] == 'arg' and False))
 
 
-def r2_zero_container(ctx, cfg='A'):
-    ctx.set_rule('C03.R2', cfg)
+def r2_zero_container(ctx, cfg='A', rule='C03.R2'):
+    ctx.set_rule(rule, cfg)
     P = ctx.progs[cfg]
     if cfg == 'A':
         fa, ff = P.fns.get(Q + '::add'), P.fns.get(Q + '::fetch_next')
